@@ -462,6 +462,112 @@ func collections(r *engine.Rec) {
 	r.Sample(map[string]any{"array": []int{2, 0, 3, 0}, "methods": "Array/List/Catalog Sort, SortWithRanker, Reverse, Shuffle vs Sorter on the Go array"})
 }
 
+// histories: every sequence of three reordering calls on ONE Array, List and
+// Catalog object has the effect the sorter has on the equivalent Go array.
+func histories(r *engine.Rec) {
+	maxLen := 4
+	if r.Tier == "thorough" {
+		maxLen = 5
+	}
+	N := common.N()
+	desc := func(a, b int) age.Rank { return rk(b, a) }
+	steps := []string{"SortValues", "SortValuesWithRanker", "ReverseValues", "ShuffleValues"}
+	hook := func() { rt.RandHook = func(max int64) int64 { return (max*3 + 1) % max } }
+	type AL = col.AssociationLike[int, int]
+	count := 0
+	forAllArrays(maxLen, 3, func(a []int) bool {
+		in := append([]int(nil), a...)
+		for code := 0; code < 64; code++ {
+			seq := []string{steps[code%4], steps[(code/4)%4], steps[(code/16)%4]}
+			c := arrCase{Part: "history " + fmt.Sprint(seq), Array: in}
+			if !r.Wanted(c) {
+				continue
+			}
+			count++
+			model := append([]int(nil), in...)
+			arr := col.Array[int](N).MakeFromArray(in)
+			lst := col.List[int](N).MakeFromArray(in)
+			cat := col.Catalog[int, int](N).Make()
+			for i, v := range in {
+				cat.SetValue(v*10+i, v)
+			}
+			catModel := cat.AsArray()
+			byVal := func(x, y AL) age.Rank { return rk(y.GetValue(), x.GetValue()) }
+			for si, step := range seq {
+				apply := func(s col.Sortable[int]) rt.Outcome {
+					hook()
+					defer func() { rt.RandHook = nil }()
+					return rt.Protect(budget(len(in))*4, func() {
+						switch step {
+						case "SortValues":
+							s.SortValues()
+						case "SortValuesWithRanker":
+							s.SortValuesWithRanker(desc)
+						case "ReverseValues":
+							s.ReverseValues()
+						case "ShuffleValues":
+							s.ShuffleValues()
+						}
+					})
+				}
+				hook()
+				switch step {
+				case "SortValues":
+					age.Sorter[int]().Make().SortValues(model)
+					age.Sorter[AL]().Make().SortValues(catModel)
+				case "SortValuesWithRanker":
+					age.Sorter[int]().MakeWithRanker(desc).SortValues(model)
+					age.Sorter[AL]().MakeWithRanker(byVal).SortValues(catModel)
+				case "ReverseValues":
+					age.Sorter[int]().Make().ReverseValues(model)
+					age.Sorter[AL]().Make().ReverseValues(catModel)
+				case "ShuffleValues":
+					age.Sorter[int]().Make().ShuffleValues(model)
+					hook()
+					age.Sorter[AL]().Make().ShuffleValues(catModel)
+				}
+				rt.RandHook = nil
+				eq := func(x, y []int) bool { return (len(x) == 0 && len(y) == 0) || reflect.DeepEqual(x, y) }
+				if o := apply(arr); o.Panicked || !eq(arr.AsArray(), model) {
+					r.Violation("Array."+step+" differs from the sorter after earlier reordering calls on the same array", fmt.Sprintf("in %v history %v step %d: got %v want %v", in, seq, si, arr.AsArray(), model), c)
+				}
+				if o := apply(lst); o.Panicked || !eq(lst.AsArray(), model) {
+					r.Violation("List."+step+" differs from the sorter after earlier reordering calls on the same list", fmt.Sprintf("in %v history %v step %d: got %v want %v", in, seq, si, lst.AsArray(), model), c)
+				}
+				hook()
+				var oc rt.Outcome
+				switch step {
+				case "SortValues":
+					oc = rt.Protect(budget(len(in))*8, func() { cat.SortValues() })
+				case "SortValuesWithRanker":
+					oc = rt.Protect(budget(len(in))*8, func() { cat.SortValuesWithRanker(byVal) })
+				case "ReverseValues":
+					oc = rt.Protect(budget(len(in)), func() { cat.ReverseValues() })
+				case "ShuffleValues":
+					oc = rt.Protect(budget(len(in)), func() { cat.ShuffleValues() })
+				}
+				rt.RandHook = nil
+				got := cat.AsArray()
+				okc := !oc.Panicked && len(got) == len(catModel)
+				for i := 0; okc && i < len(got); i++ {
+					if got[i].GetKey() != catModel[i].GetKey() {
+						okc = false
+					}
+				}
+				if !okc {
+					r.Violation("Catalog."+step+" differs from the sorter after earlier reordering calls on the same catalog", fmt.Sprintf("in %v history %v step %d", in, seq, si), c)
+				}
+				r.Evals += 3
+			}
+		}
+		return true
+	})
+	r.States += int64(count)
+	r.Transitions += r.Evals
+	r.Distinct += int64(count)
+	r.Sample(map[string]any{"array": []int{2, 0, 1}, "history on one Catalog/List/Array": []string{"SortValues", "SortValuesWithRanker", "SortValues"}})
+}
+
 // reuse: one sorter instance used for a history of calls; every call must be
 // correct and must leave the arrays of earlier calls alone.
 func reuse(r *engine.Rec) {
@@ -567,7 +673,7 @@ func init() {
 				us = append(us, engine.Unit{Name: "arrays-" + n, Run: exhaustiveArrays(n)})
 			}
 			us = append(us, engine.Unit{Name: "every-ranker", Run: everyRanker}, engine.Unit{Name: "ladder", Run: ladder},
-				engine.Unit{Name: "shuffle", Run: shuffle}, engine.Unit{Name: "collections", Run: collections}, engine.Unit{Name: "sorter-reuse", Run: reuse})
+				engine.Unit{Name: "shuffle", Run: shuffle}, engine.Unit{Name: "collections", Run: collections}, engine.Unit{Name: "sorter-reuse", Run: reuse}, engine.Unit{Name: "collection-histories", Run: histories})
 			return us
 		},
 	})
